@@ -8,7 +8,7 @@ from .. import models as M
 from . import pool
 
 RULE = ("tables are built so that the cell (row r, column i) holds the unique integer 100*i + r, so any read or write identifies the column it "
-	"touched. For name lists of width 1-12 drawn from a 40-name dictionary (unicode, empty / None, public Vector/Table attribute names, accessor "
+	"touched. For name lists of width 1-12 drawn from a 46-name dictionary (unicode, empty / None, public Vector/Table attribute names, accessor "
 	"look-alikes such as a__1 / col3_ / cols / col__1, case variants, leading digits, every duplication pattern; all pairs and sampled triples "
 	"exhaustively) and after every step of rename / replace / append histories (rename_column(s), rename through a live view, attribute "
 	"replacement, >> ; with dir(t) and repr(t) placed before or after), the advertised names (dir(t) minus dir(Table()), and the dot row of repr "
@@ -22,13 +22,13 @@ ASSUMPTIONS = [
 	"sanitisation equality is judged only for names whose documented reading is unambiguous (no double underscore after substitution)",
 	"non-string column names are not generated",
 ]
-EXHAUSTIVE = {"flag": True, "scope": "all ordered pairs over the 40-name dictionary (triples and wider lists sampled); histories sampled"}
+EXHAUSTIVE = {"flag": True, "scope": "all ordered pairs over the 46-name dictionary (triples and wider lists sampled); histories sampled"}
 ANCHOR_FUNCS = ["naming:_sanitize_user_name", "table:Table._build_column_map", "table:Table.__getattr__", "table:Table.__dir__", "table:Table.__setitem__",
 	"table:Row.__getattr__", "display:_compute_headers"]
 REQUIRED_STRATA = {"static": 1500, "history-step": 1000, "repr-dot-row": 200}
 
 DICT = ["a", "b", "A", "Total $", "total", "x y", "x_y", "x  y", "1st", "007", "", None, "sum", "max", "cols", "T", "name", "copy", "schema", "shape", "join", "fillna",
-	"a__1", "col3_", "col__1", "c1x", "col0_", "col1_", "_a", "a_", "__", "é", "Ünï cödé", "class", "a.b", "a-b", "a__b", "sort_by", "dtype", " a "]
+	"a__1", "col3_", "col__1", "c1x", "col0_", "col1_", "_a", "a_", "__", "é", "Ünï cödé", "class", "a.b", "a-b", "a__b", "sort_by", "dtype", " a ", "a___1", "total _ 1", "rate_(_2)", "a____7", "x_ _2", "b__10_"]
 
 _BASE = None
 _PUBLIC = None
